@@ -26,6 +26,12 @@ CHECKS = {
     "C05": dict(engine="E1+E5", cat="model_checking",
                 technique="exhaustive enumeration of argument type x way of supplying (10 ways) x value x position (field / directive / @skip,@include); absolute oracle (reference CoerceArgumentValues) and relational oracle (all spellings of a value agree)",
                 text="Same type and value universes as C04; every value is spelled as literal, variable, variable inside list literal, variable inside object literal, variable default, schema default, omitted, null literal, null/absent variable, nullable-variable-with-default into a non-null position (top level and nested). The dictionary observed by the real resolver / directive hook is compared with the reference dictionary and with the dictionaries of the other spellings; ill-typed values must never be delivered."),
+    "C06": dict(engine="E1+E5", cat="model_checking",
+                technique="explicit-state BFS over documents certified valid by a reference validator (29 rules); every state executed on the real engine; invariant: no validation-tagged error, data equals the reference executor",
+                text="Every valid document within d=2 (thorough 3) rewrites, from a 10-kind catalogue applied at every position (duplicate field, extract/spread fragment again, nest spreads, @skip/@include with literals and variables, argument through a fresh variable, custom directive at every executable location, introspection meta fields, extra operations), of 12 seeds built around validation bookkeeping (fragment DAGs with sharing, late definitions, variables only inside nested fragments, repeated fields with arguments). The engine must not answer with an error carrying a validation rule tag nor with the generic parse/validate failure, and data must equal the reference."),
+    "C07": dict(engine="E1+E5", cat="model_checking",
+                technique="explicit-state enumeration: base documents (seeds and all valid documents within d rewrites) x violation-injecting rewrite catalogue (26 rules x site kinds) applied at every applicable node; reference validator labels each mutant; refusal and zero-activity invariant checked on the real engine",
+                text="For 17 seed documents (queries, mutations, subscriptions) and every valid document within 1 rewrite (thorough 2), a catalogue of violation-injecting rewrites for each of the 26 documented rules is applied at every applicable node and site kind (operation, nested selection, named/inline fragment, directive argument, list item, nested input field, variable default, first/non-first operation). The reference validator certifies which rules each mutated document breaks; evidence reports per (rule, site) how many mutants break exactly one supported rule. Oracle: data null, errors non-empty, and zero resolver / type-resolver / directive-hook / subscription-source activity, for every operation name."),
     "C10": dict(engine="E1+E5", cat="model_checking",
                 technique="exhaustive enumeration of 8 scalars x 3 coercion directions x boundary-value universe on the real scalar objects and through a real engine; four algebraic laws checked on every triple against reference tables",
                 text="Every (scalar, direction, value) triple over 8 built-in scalars, result/input/literal directions and a 140-value boundary universe (0, +-1, +-2^31, +-2^53, huge ints, integral/non-integral floats, NaN, +-inf, denormals, numeric/blank/unicode strings, bools, containers, temporal strings and datetimes), on the scalar objects attached to a cooked schema and through echo fields of a real engine (resolver return, literal spelling, variable spelling). Laws: L1 result fails or yields the wire type denoting the same value; L2 input accepts exactly the spec kinds (reference tables in vf/model/coerce.py); L3 literal == variable; L4 idempotence and temporal round trips."),
